@@ -555,6 +555,67 @@ class Loader:
         dropped_text = "\n".join(ast.unparse(d) for d in dropped)
         return ns[node.name + "__tail"], dropped_text, kept_text, hashlib.sha256(kept_text.encode()).hexdigest()[:16]
 
+    def extract_segment(self, modname, qualname, start, stop=None, loop_body=False):
+        """A contiguous run of statements of a function as a function of its free variables (mechanical, from the current source).
+        `start` / `stop` are predicates on the unparsed text of a top-level statement of the function: the segment runs from the first
+        statement satisfying `start` up to (not including) the first later statement satisfying `stop` (default: one statement).
+        With `loop_body` the selected statement must be a `for` loop and the segment is its body, the loop target being a parameter.
+        Returns (function(**env) -> dict of locals afterwards, parameter names, source text, sha)."""
+        self.load(modname)
+        node = self.trees[modname]
+        for p in qualname.split("."):
+            node = next(n for n in node.body if isinstance(n, (ast.FunctionDef, ast.ClassDef)) and n.name == p)
+        body = list(node.body)
+        texts = [ast.unparse(st) for st in body]
+        i0 = next((i for i, t in enumerate(texts) if start(t)), None)
+        if i0 is None:
+            raise KeyError(f"{modname}:{qualname}: no statement matches the start of the segment")
+        if loop_body:
+            if not isinstance(body[i0], ast.For):
+                raise KeyError(f"{modname}:{qualname}: the selected statement is not a for loop")
+            stmts = list(body[i0].body)
+        else:
+            i1 = next((i for i in range(i0 + 1, len(body)) if stop is not None and stop(texts[i])), i0 + 1 if stop is None else len(body))
+            stmts = body[i0:i1]
+        import copy
+        stmts = copy.deepcopy(stmts)
+        assigned, loaded = set(), []
+
+        class V(ast.NodeVisitor):
+            def visit_Name(self, n):
+                if isinstance(n.ctx, ast.Load):
+                    if n.id not in assigned and n.id not in loaded:
+                        loaded.append(n.id)
+                else:
+                    assigned.add(n.id)
+
+            def visit_Assign(self, n):
+                self.visit(n.value)
+                for t in n.targets:
+                    self.visit(t)
+
+            def visit_AugAssign(self, n):
+                self.visit(n.value)
+                if isinstance(n.target, ast.Name) and n.target.id not in assigned and n.target.id not in loaded:
+                    loaded.append(n.target.id)
+                self.visit(n.target)
+        for st in stmts:
+            V().visit(st)
+        glob = self.modules[modname].__dict__
+        params = [n for n in loaded if n not in glob and n not in self.builtins and not hasattr(_bi, n)]
+        fname = node.name + "__segment"
+        ret = ast.Return(ast.Call(ast.Name("dict", ast.Load()), [ast.Call(ast.Name("locals", ast.Load()), [], [])], []))
+        fn = ast.FunctionDef(name=fname, args=ast.arguments(posonlyargs=[], args=[ast.arg(arg=a) for a in params], vararg=None, kwonlyargs=[],
+                                                            kw_defaults=[], kwarg=None, defaults=[]),
+                             body=stmts + [ret], decorator_list=[], returns=None, type_comment=None, type_params=[])
+        mod = ast.Module(body=[fn], type_ignores=[])
+        text = "\n".join(ast.unparse(st) for st in stmts)
+        mod = _Instrument().visit(mod)
+        ast.fix_missing_locations(mod)
+        ns = {}
+        exec(compile(mod, self._path(modname)[0], "exec"), glob, ns)
+        return ns[fname], params, text, hashlib.sha256(text.encode()).hexdigest()[:16]
+
     # ---------------------------------------------------------------- lookup
     def cls(self, dotted):
         mod, name = dotted.rsplit(".", 1)
